@@ -258,7 +258,16 @@ class CFG:
             if "term" in bd:
                 b.term = by_id.get(bd["term"])
             if "cond" in bd:
-                b.cond = by_id.get(bd["cond"])
+                c = by_id.get(bd["cond"])
+                # the value that decides the branch is the last operand evaluated:
+                # for `if (a || b)` the block ending in the IfStmt tests b
+                while c is not None:
+                    cs = c.strip_parens()
+                    if cs.k == "BinaryOperator" and cs.op in ("&&", "||"):
+                        c = cs.kids[1]
+                    else:
+                        break
+                b.cond = c
             if "label" in bd:
                 b.label = by_id.get(bd["label"])
             self.blocks[b.id] = b
